@@ -86,6 +86,9 @@ def lzma_filter(method, props):
     fid = LZMA_FILTERS[method]
     if props is not None and fid in (lzma.FILTER_LZMA1, lzma.FILTER_LZMA2, lzma.FILTER_DELTA):
         return lzma._decode_filter_properties(fid, props)
+    if props is not None and len(props) == 4 and int.from_bytes(props, "little"):
+        # a BCJ filter's only property: its start offset
+        return {"id": fid, "start_offset": int.from_bytes(props, "little")}
     return {"id": fid}
 
 
